@@ -912,6 +912,8 @@ def _evaluates_alike(node: ast.AST, simplified: ast.AST) -> bool:
     """In every case the two formulas have the same truth value, and the simplified one evaluates
     no operand that may fail or have an effect (a division, a subscript, a call) unless the
     original evaluates it as well, and in the same order."""
+    if any(core.walk(node, ast.NamedExpr)):
+        return False  # x > 1 is another condition after (x := 0)
     operands = {
         core.unparse(operand): operand
         for operand in _boolean_operands(node)
